@@ -1,0 +1,32 @@
+//go:build verif
+// +build verif
+
+package runtime
+
+// Verification hooks (build tag "verif"): passive observation points used by
+// an external conformance harness.  They never change the runtime's behaviour.
+
+// VerifCtxHook, when set, is called at the runtime-context linearization
+// points: "push" (after PushContext, def is the requested definition),
+// "popped" (the context being popped, before its parent is re-charged), "pop"
+// (after PopContext completed), "cpu.limit"/"mem.limit" (a request of a units
+// reaches the hard limit), "kill" (status just became killed, before the
+// panic), "cpu.dead"/"mem.dead" (a request of a units made on a context that is
+// not live).
+var VerifCtxHook func(kind string, ctx RuntimeContext, def *RuntimeContextDef, a, b uint64)
+
+// VerifThreadHook, when set, is called at the coroutine protocol points, see
+// thread.go.  It is called by the goroutine that performs the step.
+var VerifThreadHook func(kind string, t *Thread, other *Thread)
+
+func verifCtx(kind string, ctx RuntimeContext, def *RuntimeContextDef, a, b uint64) {
+	if VerifCtxHook != nil {
+		VerifCtxHook(kind, ctx, def, a, b)
+	}
+}
+
+func verifThread(kind string, t *Thread, other *Thread) {
+	if VerifThreadHook != nil {
+		VerifThreadHook(kind, t, other)
+	}
+}
